@@ -270,6 +270,18 @@ var BigDocs = []BigDoc{
 	{"backslashes", func(n int) []byte { return []byte(`"` + strings.Repeat(`\\`, n/2) + `"`) }},
 	{"quotes-in-string", func(n int) []byte { return []byte(`["` + strings.Repeat(`\"`, n/2) + `"]`) }},
 	{"brackets-in-string", func(n int) []byte { return []byte(`["` + strings.Repeat(`[{`, n/2) + `"]`) }},
+	// a long stretch without quotes or brackets of the enclosing kind, THEN strings holding
+	// brackets and escaped quotes: windowed "hop over plain runs" fast paths lose their bound
+	// beyond the window (seeded change C11r6-m2: an 8 KiB window in the fast skipper)
+	{"long-numeric-array-then-brackets-in-strings-in-object", func(n int) []byte {
+		return []byte(`{"a":[` + strings.Repeat("0,", n) + `0],"b":"}","c":[1,2],"d":"]","e":"{[","f":"\"}","g":{"h":"]}"}}`)
+	}},
+	{"long-numeric-array-then-brackets-in-strings-in-array", func(n int) []byte {
+		return []byte(`[{"a":` + strings.Repeat("1", n) + `},"]",[1,2],"}","[{","\"]",["]["]]`)
+	}},
+	{"long-plain-string-then-brackets-in-strings", func(n int) []byte {
+		return []byte(`["` + strings.Repeat("a", n) + `","]","}",{"k":"}"},"\"]"]`)
+	}},
 }
 
 func W5(sizes []int, sink Sink) {
